@@ -19,7 +19,8 @@ spellings are constant-folded from the source (no import) and compared with an i
 other unit is derived from those rows by the same algebra in all three representations: prefix x base composition in
 _lookup_unit_symbol, operator/operand agreement of expr/base_value/dimensions in Unit.__mul__/__truediv__/__pow__/
 as_coeff_unit and in both accumulators of _get_unit_data_from_expr, and the direction of the ratio and affine offset in
-_get_conversion_factor."""
+_get_conversion_factor.
+(R2, extended) every registry edit drops the derived prefixed rows before the base row changes, and the purge recognises them by recomputing entry scale * prefix value (no division); (R5) the scale filed by define_unit / UnitRegistry.modify from a quantity is its magnitude in SI: every base conversion on the way names the mks system."""
 LEVEL_NOTE = """Undecided: the floats sympy produces for generated compound expressions and pairwise .to() numerics
 (rounding). Resolution of the oracle: a slip of a table value smaller than the row's tolerance (1e-12 exact rows, 1e-8
 astronomical lengths, 2e-6 CODATA, 1e-3..5e-2 solar/planetary) is not detected. Rows added to the table that have no
